@@ -25,14 +25,14 @@
 //! as call.ret res=hang (the waiting overlaps with the following runs, the remainder is waited once at the end).
 use std::{
     collections::HashMap,
-    future::Future,
+    future::{Future, IntoFuture},
     io::Write,
     num::NonZeroUsize,
     panic::{AssertUnwindSafe, catch_unwind},
     pin::pin,
     sync::{
         Arc, Barrier, Mutex, RwLock,
-        atomic::{AtomicBool, AtomicI64, AtomicUsize, Ordering},
+        atomic::{AtomicBool, AtomicI64, AtomicU64, AtomicUsize, Ordering},
     },
     task::{Context, Poll, Wake, Waker},
     thread::{self, JoinHandle, Thread},
@@ -47,7 +47,7 @@ use compio_actor::{
     supervisor::SupervisionEvent,
 };
 use compio_dispatcher::Dispatcher;
-use hactor::prog::{ActorSpec, MAX_ACTORS, MAX_SLOTS, MAX_THREADS, Op, Program, generate};
+use hactor::prog::{ActorSpec, MAX_ACTORS, MAX_SLOTS, MAX_THREADS, Op, Program, directed, generate};
 use hcore::out::{Report, panic_msg, silence_panics};
 use serde_json::{Value, json};
 
@@ -127,6 +127,12 @@ struct Shared {
     /// write-locked by main to forbid further spawns from client threads (`true` = closed)
     gate: RwLock<bool>,
     unexpected: Mutex<Vec<String>>,
+    /// per actor: a gated handler may proceed / a gated handler was entered / a gated Drop may proceed
+    gate_open: Vec<AtomicBool>,
+    gate_entered: Vec<AtomicBool>,
+    drop_open: Vec<AtomicBool>,
+    accepted_casts: AtomicU64,
+    handled_casts: AtomicU64,
 }
 
 impl Shared {
@@ -149,6 +155,11 @@ impl Shared {
             done: (0..MAX_THREADS).map(|_| AtomicBool::new(false)).collect(),
             gate: RwLock::new(false),
             unexpected: Mutex::new(Vec::new()),
+            gate_open: (0..MAX_ACTORS).map(|_| AtomicBool::new(false)).collect(),
+            gate_entered: (0..MAX_ACTORS).map(|_| AtomicBool::new(false)).collect(),
+            drop_open: (0..MAX_ACTORS).map(|_| AtomicBool::new(false)).collect(),
+            accepted_casts: AtomicU64::new(0),
+            handled_casts: AtomicU64::new(0),
         }
     }
 }
@@ -160,6 +171,23 @@ struct W {
     id: u32,
     sh: Arc<Shared>,
     spec: ActorSpec,
+    start_failed: AtomicBool,
+}
+
+/// Watchdog of the recorder's own gates: a gate that is never opened only ends the wait, it never decides an order.
+const GATE_WATCHDOG: Duration = Duration::from_secs(3);
+
+impl Drop for W {
+    fn drop(&mut self) {
+        // teardown of an incarnation whose start-up failed: keep it going until the spawner has reacted to the
+        // reported failure (or the watchdog expires), so that "failure reported" and "teardown finished" are apart
+        if self.spec.drop_gate && self.start_failed.load(Ordering::Acquire) {
+            let t0 = Instant::now();
+            while !self.sh.drop_open[self.id as usize].load(Ordering::Acquire) && t0.elapsed() < GATE_WATCHDOG {
+                thread::sleep(Duration::from_micros(100));
+            }
+        }
+    }
 }
 
 #[derive(Debug)]
@@ -168,6 +196,7 @@ struct Msg {
     n: u64,
     k: String,
     d: u32,
+    gate: bool,
 }
 
 #[derive(Debug)]
@@ -203,6 +232,9 @@ impl Actor for W {
     async fn pre_start(&self, _me: &Mailbox<Self>, (): ()) -> Result<(), String> {
         // logged when start-up is decided (after the delay): "start-up succeeded" is this point
         nap(self.spec.pre_delay).await;
+        if !self.spec.pre_ok {
+            self.start_failed.store(true, Ordering::Release);
+        }
         self.hook("pre_start", self.spec.pre_ok)
     }
 
@@ -225,9 +257,18 @@ impl Handler<Msg> for W {
     async fn handle(&self, me: &Mailbox<Self>, m: Msg, _s: &mut ()) -> Result<(), String> {
         self.sh.log.put(json!({"e": "handle.begin", "a": self.id, "p": m.p, "n": m.n, "k": m.k}));
         nap(m.d).await;
+        if m.gate {
+            let a = self.id as usize;
+            self.sh.gate_entered[a].store(true, Ordering::Release);
+            let t0 = Instant::now();
+            while !self.sh.gate_open[a].load(Ordering::Acquire) && t0.elapsed() < GATE_WATCHDOG {
+                nap(200).await;
+            }
+        }
         let ss = if m.k == "stopself" { if me.stop() { "true" } else { "false" } } else { "none" };
         let ok = m.k != "fail";
         self.sh.log.put(json!({"e": "handle.end", "a": self.id, "p": m.p, "n": m.n, "ok": ok, "ss": ss}));
+        self.sh.handled_casts.fetch_add(1, Ordering::AcqRel);
         if ok { Ok(()) } else { Err("handler failed".into()) }
     }
 }
@@ -306,6 +347,7 @@ impl Handler<SupervisionEvent<W>> for Sup {
                     sup: true,
                     pre_delay: 0,
                     stop_delay: 0,
+                    drop_gate: false,
                 };
                 lock(&self.sh.specs)[b] = Some(spec.clone());
                 spawn_async(&self.sh, Cluster::current(), SUP, b, spec, Some(me.clone())).await;
@@ -319,7 +361,21 @@ impl Handler<SupervisionEvent<W>> for Sup {
 // ---------------------------------------------------------------------------------------------
 // operations
 // ---------------------------------------------------------------------------------------------
-async fn spawn_async(sh: &Arc<Shared>, cluster: Cluster, p: u32, a: usize, spec: ActorSpec, sup: Option<Mailbox<Sup>>) {
+async fn spawn_async(sh: &Arc<Shared>, cluster: Cluster, p: u32, a: usize, spec: ActorSpec, sup: Option<Mailbox<Sup>>) -> &'static str {
+    spawn_then(sh, cluster, p, a, spec, sup, || {}).await
+}
+
+/// `after_reserve` runs when `Cluster::start` returned (name reserved or refused, task dispatched) and before
+/// the result is awaited.
+async fn spawn_then(
+    sh: &Arc<Shared>,
+    cluster: Cluster,
+    p: u32,
+    a: usize,
+    spec: ActorSpec,
+    sup: Option<Mailbox<Sup>>,
+    after_reserve: impl FnOnce(),
+) -> &'static str {
     let name = spec.name.clone().unwrap_or_default();
     if let Some(nm) = &spec.name {
         lock(&sh.ids).insert((nm.clone(), spec.cap), a as u32);
@@ -328,7 +384,7 @@ async fn spawn_async(sh: &Arc<Shared>, cluster: Cluster, p: u32, a: usize, spec:
     sh.log.put(json!({"e": "spawn.call", "p": p, "a": a, "name": name, "cap": spec.cap, "sup": supervised}));
     let (sh2, spec2) = (sh.clone(), spec.clone());
     let mut b = cluster
-        .spawn(move || W { id: a as u32, sh: sh2, spec: spec2 }, ())
+        .spawn(move || W { id: a as u32, sh: sh2, spec: spec2, start_failed: AtomicBool::new(false) }, ())
         .with_capacity(NonZeroUsize::new(spec.cap).unwrap());
     if let Some(nm) = &spec.name {
         b = b.with_name(nm.clone());
@@ -336,7 +392,9 @@ async fn spawn_async(sh: &Arc<Shared>, cluster: Cluster, p: u32, a: usize, spec:
     if supervised {
         b = b.with_supervisor(sup.as_ref().unwrap());
     }
-    let res = match b.await {
+    let fut = b.into_future();
+    after_reserve();
+    let res = match fut.await {
         Ok((mb, h)) => {
             *lock(&sh.handles[a]) = Some(h);
             *lock(&sh.mbs[a]) = Some(mb);
@@ -348,6 +406,7 @@ async fn spawn_async(sh: &Arc<Shared>, cluster: Cluster, p: u32, a: usize, spec:
         Err(SpawnError::WorkerStopped) => "workerstopped",
     };
     sh.log.put(json!({"e": "spawn.ret", "p": p, "res": res}));
+    res
 }
 
 fn deliver_res<M: Send + 'static>(r: &Result<(), DeliverError<M>>) -> &'static str {
@@ -361,7 +420,10 @@ fn deliver_res<M: Send + 'static>(r: &Result<(), DeliverError<M>>) -> &'static s
 fn do_send(sh: &Shared, p: u32, n: &mut u64, a: u32, mb: &Mailbox<W>, k: &str, d: u32) {
     *n += 1;
     sh.log.put(json!({"e": "send.call", "p": p, "a": a, "n": *n, "k": k}));
-    let r = mb.send(Msg { p, n: *n, k: k.to_string(), d });
+    let r = mb.send(Msg { p, n: *n, k: k.to_string(), d, gate: false });
+    if r.is_ok() {
+        sh.accepted_casts.fetch_add(1, Ordering::AcqRel);
+    }
     sh.log.put(json!({"e": "send.ret", "p": p, "res": deliver_res(&r)}));
 }
 
@@ -468,13 +530,88 @@ fn run_thread(sh: Arc<Shared>, cluster: Cluster, t: usize, ops: Vec<Op>, specs: 
             Op::GSend { k, d } => {
                 n += 1;
                 sh.log.put(json!({"e": "gsend.call", "p": p, "n": n, "k": k}));
-                let r = sh.group.send(Msg { p, n, k: k.clone(), d });
+                let r = sh.group.send(Msg { p, n, k: k.clone(), d, gate: false });
+                if r.is_ok() {
+                    sh.accepted_casts.fetch_add(1, Ordering::AcqRel);
+                }
                 sh.log.put(json!({"e": "send.ret", "p": p, "res": deliver_res(&r)}));
             }
             Op::GLen => {
                 sh.log.put(json!({"e": "glen.call", "p": p}));
                 let len = sh.group.len();
                 sh.log.put(json!({"e": "glen.ret", "p": p, "len": len}));
+            }
+            Op::SpawnRespawn { slot, slot2 } => {
+                let gate = sh.gate.read().unwrap_or_else(|e| e.into_inner());
+                if *gate {
+                    continue;
+                }
+                let sup = lock(&sh.sup).clone();
+                let deadline = Instant::now() + RUN_WATCHDOG;
+                let first = drive(spawn_async(&sh, cluster.clone(), p, slot, specs[slot].clone(), sup.clone()), None, Some(deadline));
+                if first == Some("startfail") {
+                    // the failure was reported: the name must be free NOW, while the failed incarnation is still
+                    // inside its (gated) Drop; the gate opens as soon as the new reservation was attempted
+                    let sh2 = sh.clone();
+                    let second = drive(
+                        spawn_then(&sh, cluster.clone(), p, slot2, specs[slot2].clone(), sup, move || {
+                            sh2.drop_open[slot].store(true, Ordering::Release);
+                        }),
+                        None,
+                        Some(Instant::now() + RUN_WATCHDOG),
+                    );
+                    if second.is_none() {
+                        lock(&sh.unexpected).push(format!("HANG respawn of slot {slot2} did not complete within the watchdog"));
+                        break;
+                    }
+                } else if first.is_none() {
+                    lock(&sh.unexpected).push(format!("HANG spawn of slot {slot} did not complete within the watchdog"));
+                    break;
+                }
+                sh.drop_open[slot].store(true, Ordering::Release);
+            }
+            Op::SendGate { slot } => {
+                let mb = lock(&sh.mbs[slot]).clone();
+                if let Some(mb) = mb {
+                    n += 1;
+                    sh.log.put(json!({"e": "send.call", "p": p, "a": slot, "n": n, "k": "cast"}));
+                    let r = mb.send(Msg { p, n, k: "cast".into(), d: 0, gate: true });
+                    sh.log.put(json!({"e": "send.ret", "p": p, "res": deliver_res(&r)}));
+                    if r.is_ok() {
+                        sh.accepted_casts.fetch_add(1, Ordering::AcqRel);
+                        let t0 = Instant::now();
+                        while !sh.gate_entered[slot].load(Ordering::Acquire) && t0.elapsed() < GATE_WATCHDOG {
+                            thread::sleep(Duration::from_micros(100));
+                        }
+                    }
+                }
+            }
+            Op::OpenGate { slot } => sh.gate_open[slot].store(true, Ordering::Release),
+            Op::WaitHandled => {
+                let t0 = Instant::now();
+                while sh.handled_casts.load(Ordering::Acquire) < sh.accepted_casts.load(Ordering::Acquire) && t0.elapsed() < GATE_WATCHDOG {
+                    thread::sleep(Duration::from_micros(100));
+                }
+            }
+            Op::StopWait { slot } => {
+                let mb = lock(&sh.mbs[slot]).clone();
+                if let Some(mb) = mb {
+                    sh.log.put(json!({"e": "stop.call", "p": p, "a": slot}));
+                    let r = mb.stop();
+                    sh.log.put(json!({"e": "stop.ret", "p": p, "res": if r { "true" } else { "false" }}));
+                    let h = lock(&sh.handles[slot]).take();
+                    if let Some(h) = h {
+                        match drive(h, None, Some(Instant::now() + RUN_WATCHDOG)) {
+                            Some(Ok(ActorExit::Stopped)) => sh.log.put(json!({"e": "exit", "a": slot, "res": "stopped"})),
+                            Some(Ok(ActorExit::Failed(_))) => sh.log.put(json!({"e": "exit", "a": slot, "res": "failed"})),
+                            Some(Err(_)) => sh.log.put(json!({"e": "exit", "a": slot, "res": "lost"})),
+                            None => {
+                                lock(&sh.unexpected).push(format!("HANG actor {slot} did not exit within the watchdog after stop"));
+                                break;
+                            }
+                        }
+                    }
+                }
             }
             Op::Pause { us } => pause(us),
         }
@@ -580,6 +717,10 @@ fn run_program(prog: &Program, run: u64) -> RunOut {
         }
     }
     // phase C: stop every actor, await every exit, let the supervisor settle; repeat until stable
+    for a in 0..MAX_ACTORS {
+        sh.gate_open[a].store(true, Ordering::Release);
+        sh.drop_open[a].store(true, Ordering::Release);
+    }
     let mut stopped = vec![false; MAX_ACTORS];
     let mut exited = vec![false; MAX_ACTORS];
     loop {
@@ -687,8 +828,12 @@ fn main() {
             9..=13 => 1,
             _ => 2,
         };
+        // the last 24 runs are the directed programs: 18 group layouts, 6 failed-start respawns
+        let tail = if runs >= 48 { runs - run } else { u64::MAX };
         let prog = match &replay {
             Some(p) => p.clone(),
+            None if tail <= 6 => directed("respawn", seed.wrapping_add(tail)),
+            None if tail <= 24 => directed("layout", tail - 7),
             None => generate(seed.wrapping_mul(1_000_003).wrapping_add(run), class),
         };
         let out = match catch_unwind(AssertUnwindSafe(|| run_program(&prog, run))) {
